@@ -505,6 +505,11 @@ Proof.
   replace (10 <=? k) with false by lia. replace (max_u64 <? m * 10 + k) with false by lia. reflexivity.
 Qed.
 
+Lemma dec_digits_S : forall f n acc,
+  dec_digits (S f) n acc =
+  if n <? 10 then (48 + n mod 10) :: acc else dec_digits f (n / 10) ((48 + n mod 10) :: acc).
+Proof. reflexivity. Qed.
+
 Lemma dec_digits_spec : forall f n acc, n < 2 ^ N.of_nat f -> n <= max_u64 ->
   exists c ds, dec_digits (S f) n acc = c :: ds ++ acc /\ is_digit c = true /\ forallb is_digit ds = true
     /\ (0 < n -> c <> 48)
@@ -513,8 +518,7 @@ Proof.
   induction f as [|f IH]; intros n acc Hn Hmax.
   - change (2 ^ N.of_nat 0) with 1 in Hn. assert (n = 0) by lia. subst n.
     exists 48, []. repeat split; try reflexivity; try lia.
-    intros rest us. cbn [app]. change 48 with (48 + 0). apply pu_step; unfold max_u64; lia.
-  - cbn [dec_digits]. destruct (n <? 10) eqn:E.
+  - rewrite dec_digits_S. destruct (n <? 10) eqn:E.
     + exists (48 + n mod 10), []. repeat split.
       * unfold is_digit, in_range. lia.
       * lia.
